@@ -334,6 +334,22 @@ func rulesC05(c *Ctx) {
 		c.Check(okSend, "Notify:refused-not-written", nf, nil, "after a refusal Notify returns the error without writing")
 	})
 
+	c.Rule("R-C05-17", "Connection.Close returns only after the connection is done, for every caller: every path of Close passes c.wait (a second, concurrent Close that returns at once tells its caller the session is closed while handlers still run and the transport is open)", func() {
+		cl := c.Fn(pJ, "Connection", "Close")
+		g := cl.Graph()
+		wv := g.callVertices(c.FnObj(pJ, "Connection", "wait"))
+		c.Must(len(wv) >= 1, "Connection.Close:waits", cl, nil, "Connection.Close calls c.wait")
+		ok, p := g.MustPassIncl(g.Entry, g.Exits, func(v int) bool {
+			for _, u := range wv {
+				if u == v {
+					return true
+				}
+			}
+			return false
+		})
+		c.Check(ok, "Connection.Close:every-path-waits", cl, nil, "every path from the entry of Close to a return passes c.wait %s", g.PathString(p))
+	})
+
 	c.Rule("R-C05-4", "session Close: stop keep-alive, cancel parked listens/subscriptions, then close the connection; onClose at most once", func() {
 		connClose := c.FnObj(pJ, "Connection", "Close")
 		connCancel := c.FnObj(pJ, "Connection", "Cancel")
